@@ -354,6 +354,8 @@ class Interp:
             return Opaque(f"{obj.what}.{name}")
         if isinstance(obj, tuple) and len(obj) == 2 and obj[0] == "builtin" and obj[1] in ("set", "frozenset"):
             return ("setfn", name)
+        if isinstance(obj, tuple) and len(obj) == 2 and obj == ("builtin", "chain") and name == "from_iterable":
+            return ("builtin", "chain_from_iterable")
         if isinstance(obj, tuple) and len(obj) == 2 and obj[0] == "builtin" and obj[1] in ("str", "dict", "list"):
             return ("native", getattr({"str": str, "dict": dict, "list": list}[obj[1]], name))
         if isinstance(obj, FakeModule):
@@ -599,6 +601,8 @@ class Interp:
             return list(it)
         if type(it).__name__ in ("dict_items", "dict_keys", "dict_values", "zip", "map", "filter", "enumerate", "chain",
                                  "groupby", "_grouper", "islice", "count", "product"):
+            return list(it)
+        if type(it).__module__ == "itertools" and type(it).__name__ not in ("count", "cycle", "repeat"):
             return list(it)
         if isinstance(it, ClassTok) and self.is_enum_class(it.name):
             seen, out = set(), []
@@ -846,6 +850,14 @@ class Interp:
             if mod is not None and n.id in mod.imports and mod.imports[n.id][0] in ("itertools", "functools") \
                     and mod.imports[n.id][1] in ("islice", "chain", "reduce", "count", "zip_longest"):
                 return ("builtin", mod.imports[n.id][1])
+            if mod is not None and n.id in mod.imports and mod.imports[n.id][0] in ("itertools", "operator") and mod.imports[n.id][1]:
+                # any other itertools / operator function: the real one, applied to interpreter values (callable arguments are
+                # wrapped by the native-call path)
+                import itertools as _itertools
+                import operator as _operator
+                lib = _itertools if mod.imports[n.id][0] == "itertools" else _operator
+                if hasattr(lib, mod.imports[n.id][1]):
+                    return ("native", getattr(lib, mod.imports[n.id][1]))
             if mod is not None and n.id in mod.imports:
                 res = self.resolve_import(mod, n.id, func, depth, 0)
                 if res is not None:
@@ -1539,7 +1551,13 @@ class Interp:
         if name == "cast":
             return args[1]
         if name == "map":
-            return _Gen([self.apply(args[0], [x], {}, func, depth) for x in self.iterate(args[1])])
+            cols = [self.iterate(a) for a in args[1:]]
+            return _Gen([self.apply(args[0], list(xs), {}, func, depth) for xs in zip(*cols)])
+        if name == "chain_from_iterable":
+            out = []
+            for a in self.iterate(args[0]):
+                out.extend(self.iterate(a))
+            return _Gen(out)
         if name == "astuple":
             return tuple(args[0].fields[k] for k in args[0].fields["__dataclass_fields__"])
         if name == "islice":
